@@ -17,6 +17,7 @@ structure TblObs where
   start : Nat
   endT : Nat
   resume : Bool
+  key : Nat        -- `resume_start_time()`: the start time `adlt remote` sends and orders its listing by
 deriving Repr, DecidableEq
 
 structure Obs where
@@ -29,7 +30,8 @@ def eraseLc (m : Msg) : Msg := { m with lc := 0 }
 def observe (s : St) : Obs :=
   { out := s.out.reverse.map fun o => { m := eraseLc o.m, lc := o.m.lc, vis := o.visible },
     tbl := s.published.map fun (id, l) =>
-      { id := id, ecu := l.ecu, n := l.nrMsgs, start := l.start, endT := l.endTime, resume := l.resume.isSome } }
+      { id := id, ecu := l.ecu, n := l.nrMsgs, start := l.start, endT := l.endTime, resume := l.resume.isSome,
+        key := l.resumeStart } }
 
 namespace Spec
 
